@@ -11,7 +11,7 @@ Lemma update_slice_eq : forall cfg h A v s e rest n,
   update cfg h A v (PS s e :: rest) n =
   match v with
   | HNull | HNilArr | HArr _ _ _ _ =>
-      let '(st, en) := slice_bounds s e (Z.of_nat (hlen v)) in
+      let '(st, en) := slice_bounds_write s e (Z.of_nat (hlen v)) in
       let st := Z.to_nat st in let en := Z.to_nat en in
       if Nat.eqb st en && h_is_empty n then Some (h, A, norm_nil v)
       else match update cfg h A (reslice cfg.(three_index) v st en) rest n with
@@ -23,7 +23,7 @@ Lemma update_slice_eq : forall cfg h A v s e rest n,
   end.
 Proof.
   intros. destruct v; try reflexivity; cbn [update];
-    destruct (slice_bounds s e (Z.of_nat (hlen _))) as [st en];
+    destruct (slice_bounds_write s e (Z.of_nat (hlen _))) as [st en];
     destruct (Nat.eqb (Z.to_nat st) (Z.to_nat en) && h_is_empty n); try reflexivity;
     destruct (update cfg h A _ rest n) as [[[h1 A1] u]|]; try reflexivity; destruct u; reflexivity.
 Qed.
@@ -511,7 +511,7 @@ Proof.
   assert (Hmain : forall js E fps, arr_node h ps js v E fps fp -> elems h v = E -> hlen v = length js ->
     norm_nil v = v -> (j = JNull \/ j = JArr js) ->
     match
-      (let '(st, en) := slice_bounds s e (zlen js) in
+      (let '(st, en) := slice_bounds_write s e (zlen js) in
        if (st =? en)%Z && is_empty jn then Some j
        else match Path.update (JArr (sub js st en)) (PI i :: r) jn with
             | Some (JArr u) => Some (JArr (firstn (Z.to_nat st) js ++ u ++ skipn (Z.to_nat en) js))
@@ -520,13 +520,13 @@ Proof.
             end)
     with
     | None =>
-        (let '(st, en) := slice_bounds s e (Z.of_nat (hlen v)) in
+        (let '(st, en) := slice_bounds_write s e (Z.of_nat (hlen v)) in
          let st := Z.to_nat st in let en := Z.to_nat en in
          if Nat.eqb st en && h_is_empty n then Some (h, Some ps, norm_nil v)
          else match update cfg h (Some ps) (reslice true v st en) (PI i :: r) n with
               | None => None | Some (h1, A1, u) => slice_write h1 A1 v st en u end) = None
     | Some j' => exists h' ps' u fp',
-        (let '(st, en) := slice_bounds s e (Z.of_nat (hlen v)) in
+        (let '(st, en) := slice_bounds_write s e (Z.of_nat (hlen v)) in
          let st := Z.to_nat st in let en := Z.to_nat en in
          if Nat.eqb st en && h_is_empty n then Some (h, Some ps, norm_nil v)
          else match update cfg h (Some ps) (reslice true v st en) (PI i :: r) n with
@@ -537,7 +537,7 @@ Proof.
     destruct (node_facts _ _ _ _ _ _ _ Hnode ND) as (Hrep & NDc & Hcl).
     destruct (reps3_length _ _ _ _ Hrep) as [L1 L2].
     unfold zlen. rewrite Hhl, Hnn.
-    destruct (slice_bounds s e (Z.of_nat (length js))) as [zs ze] eqn:SB.
+    destruct (slice_bounds_write s e (Z.of_nat (length js))) as [zs ze] eqn:SB.
     destruct (slice_bounds_range _ _ _ _ _ (Nat2Z.is_nonneg _) SB) as [[B1 B2] B3].
     rewrite (sub_nat js zs ze) by lia.
     set (st := Z.to_nat zs). set (en := Z.to_nat ze).
